@@ -91,6 +91,10 @@ func (c *collector) brokenf(format string, a ...any) {
 	}
 }
 
+// quick crosses only these name shapes with a second feature; every shape is tried alone
+var namePairShapesShort = map[string]bool{"leadUnderscore": true, "caseTwin": true, "goKeyword": true}
+var namePairsFull bool
+
 var deadline time.Time
 
 func expired() bool { return !deadline.IsZero() && time.Now().After(deadline) }
@@ -106,6 +110,7 @@ func main() {
 	workers := flag.Int("workers", runtime.NumCPU(), "worker goroutines")
 	namesFullUpto := flag.Int("names-full-upto", 3, "shapes with at most this many nodes take __type names from the full alphabet")
 	wrapDepth := flag.Int("wrap-depth", 4, "max depth of list/non-null wrappers in the grid")
+	flag.BoolVar(&namePairsFull, "name-pairs-full", false, "cross every name shape (not only the short list) with a second feature")
 	histLen := flag.Int("hist-len", 0, "max requests per history (0 = no histories)")
 	fed := flag.Bool("fed", false, "this binary was built in the federation probe (own embedded schema, _service field)")
 	histWork := flag.Bool("hist-worker", false, "internal: run the histories of one (configuration, first request) and print JSON")
@@ -162,6 +167,9 @@ func main() {
 	o.Bounds["wrapper_depth"] = *wrapDepth
 	// histories first: they are cheap and must not be starved by the grid
 	runHistories(*fed, *histLen, *workers, *layout, col, o)
+	if *fed {
+		runFedRebuild(*layout, col, o)
+	}
 	if *gridK >= 0 {
 		runGrid(grid, k, *workers, *layout, col, o)
 	}
@@ -222,12 +230,20 @@ func evalSchema(g *Grid, a Assignment, verbose bool) (findings []caseFinding, br
 	if why := verifyModel(g, a, ref); why != "" {
 		return nil, fmt.Sprintf("grid schema %s: reference does not contain the requested feature: %s\n%s", g.Label(a), why, sdl), res
 	}
+	findings, res.evaluations, res.nontrivial = compareServed(ref, newServer(served, true), newServer(served, false), verbose)
+	res.nontrivial = res.nontrivial && len(a) > 0
+	return findings, "", res
+}
+
+// compareServed runs every introspection variant against the enabled server (and the standard
+// query against the disabled one) and returns the disagreements with the reference description.
+func compareServed(ref *MSchema, srv, off *handler.Server, verbose bool) (findings []caseFinding, evaluations int, comparedAny bool) {
+	var res gridCaseResult
 	add := func(variant string, diffs []Diff) {
 		for _, d := range diffs {
 			findings = append(findings, caseFinding{sig: d.Signature(variant), what: "[" + variant + "] " + d.String(), variant: variant})
 		}
 	}
-	srv := newServer(served, true)
 	comparedUser := 0
 	runSchemaQuery := func(v Variant, query string) {
 		raw, _ := postRaw(srv, query, nil)
@@ -324,7 +340,6 @@ func evalSchema(g *Grid, a Assignment, verbose bool) (findings []caseFinding, br
 	}
 
 	// the same schema with introspection left disabled: the standard query gets nothing
-	off := newServer(served, false)
 	resp, err = post(off, introspection.Query, nil)
 	res.evaluations++
 	if err != nil {
@@ -339,8 +354,7 @@ func evalSchema(g *Grid, a Assignment, verbose bool) (findings []caseFinding, br
 			findings = append(findings, caseFinding{"disabled:no-error:__schema", fmt.Sprintf("standard introspection query with introspection disabled gave no error at __schema: %.200s", resp.Raw), "disabled"})
 		}
 	}
-	res.nontrivial = len(a) > 0 && comparedUser > 0
-	return findings, "", res
+	return findings, res.evaluations, comparedUser > 0
 }
 
 func hasErrorAt(resp *gqlResponse, key string) bool {
@@ -357,6 +371,18 @@ func hasErrorAt(resp *gqlResponse, key string) bool {
 // verifyModel checks that the reference really contains what the assignment asked for, so that
 // a typo in the SDL writer cannot silently turn cases into trivial ones. "" = fine.
 func verifyModel(g *Grid, a Assignment, ref *MSchema) string {
+	objT, _ := g.nm(a, "objType")
+	fN, _ := g.nm(a, "objField")
+	gN, _ := g.nm(a, "ifaceField")
+	argN, _ := g.nm(a, "objArg")
+	iargN, _ := g.nm(a, "ifaceArg")
+	inN, _ := g.nm(a, "inputField")
+	evN, _ := g.nm(a, "enumValue")
+	dirN, _ := g.nm(a, "directive")
+	dargN, _ := g.nm(a, "dirArg")
+	if ref.Types[objT] == nil || ref.Directives[dirN] == nil {
+		return "renamed object type / directive not in the reference"
+	}
 	fieldOf := func(typ, name string) *MField {
 		t := ref.Types[typ]
 		if t == nil {
@@ -386,42 +412,42 @@ func verifyModel(g *Grid, a Assignment, ref *MSchema) string {
 	get := func(kind string) *elem {
 		switch kind {
 		case "objField":
-			if f := fieldOf("Obj", "f"); f != nil {
+			if f := fieldOf(objT, fN); f != nil {
 				return &elem{f.Desc, f.IsDeprecated, f.Reason, nil}
 			}
 		case "ifaceField":
-			if f := fieldOf("I1", "g"); f != nil {
+			if f := fieldOf("I1", gN); f != nil {
 				return &elem{f.Desc, f.IsDeprecated, f.Reason, nil}
 			}
 		case "objArg":
-			if f := fieldOf("Obj", "f"); f != nil {
-				if iv := argOf(f.Args, "arg"); iv != nil {
+			if f := fieldOf(objT, fN); f != nil {
+				if iv := argOf(f.Args, argN); iv != nil {
 					return &elem{iv.Desc, iv.IsDeprecated, iv.Reason, iv}
 				}
 			}
 		case "ifaceArg":
-			if f := fieldOf("I1", "g"); f != nil {
-				if iv := argOf(f.Args, "iarg"); iv != nil {
+			if f := fieldOf("I1", gN); f != nil {
+				if iv := argOf(f.Args, iargN); iv != nil {
 					return &elem{iv.Desc, iv.IsDeprecated, iv.Reason, iv}
 				}
 			}
 		case "inputField":
 			if t := ref.Types["In"]; t != nil {
-				if iv := argOf(t.InputFields, "a"); iv != nil {
+				if iv := argOf(t.InputFields, inN); iv != nil {
 					return &elem{iv.Desc, iv.IsDeprecated, iv.Reason, iv}
 				}
 			}
 		case "enumValue":
 			if t := ref.Types["Color"]; t != nil {
 				for _, ev := range t.EnumValues {
-					if ev.Name == "RED" {
+					if ev.Name == evN {
 						return &elem{ev.Desc, ev.IsDeprecated, ev.Reason, nil}
 					}
 				}
 			}
 		case "dirArg":
-			if d := ref.Directives["dir"]; d != nil {
-				if iv := argOf(d.Args, "darg"); iv != nil {
+			if d := ref.Directives[dirN]; d != nil {
+				if iv := argOf(d.Args, dargN); iv != nil {
 					return &elem{iv.Desc, iv.IsDeprecated, iv.Reason, iv}
 				}
 			}
@@ -471,10 +497,10 @@ func verifyModel(g *Grid, a Assignment, ref *MSchema) string {
 			return k + " default presence"
 		}
 	}
-	if f := fieldOf("Obj", "w"); f == nil || f.Type != renderWrap(g.val(a, "outWrap"), "Int") {
+	if f := fieldOf(objT, "w"); f == nil || f.Type != renderWrap(g.val(a, "outWrap"), "Int") {
 		return "outWrap"
 	}
-	if f := fieldOf("Obj", "f"); f == nil || argOf(f.Args, "warg") == nil || argOf(f.Args, "warg").Type != renderWrap(g.val(a, "inWrap"), "Int") {
+	if f := fieldOf(objT, fN); f == nil || argOf(f.Args, "warg") == nil || argOf(f.Args, "warg").Type != renderWrap(g.val(a, "inWrap"), "Int") {
 		return "inWrap"
 	}
 	has := func(b bool, what string) string {
@@ -487,19 +513,53 @@ func verifyModel(g *Grid, a Assignment, ref *MSchema) string {
 		has((g.val(a, "mutation") == "yes") == (ref.Mutation != nil), "mutation"),
 		has((g.val(a, "subscription") == "yes") == (ref.Subscription != nil), "subscription"),
 		has(eqp(wantDesc(g.val(a, "schemaDesc")), ref.Desc), "schemaDesc"),
-		has(eqp(wantDesc(g.val(a, "typeDesc")), ref.Types["Obj"].Desc) && eqp(wantDesc(g.val(a, "typeDesc")), ref.Types["Sc"].Desc), "typeDesc"),
-		has(eqp(wantDesc(g.val(a, "dirDesc")), ref.Directives["dir"].Desc), "dirDesc"),
-		has((g.val(a, "repeatable") == "yes") == ref.Directives["dir"].IsRepeatable, "repeatable"),
+		has(eqp(wantDesc(g.val(a, "typeDesc")), ref.Types[objT].Desc) && eqp(wantDesc(g.val(a, "typeDesc")), ref.Types["Sc"].Desc), "typeDesc"),
+		has(eqp(wantDesc(g.val(a, "dirDesc")), ref.Directives[dirN].Desc), "dirDesc"),
+		has((g.val(a, "repeatable") == "yes") == ref.Directives[dirN].IsRepeatable, "repeatable"),
 		has((g.val(a, "specifiedBy") == "yes") == (ref.Types["Sc"].SpecifiedBy != nil), "specifiedBy"),
 		has((g.val(a, "oneOf") == "yes") == ref.Types["One"].IsOneOf, "oneOf"),
 		has((g.val(a, "union") != "none") == (ref.Types["U"] != nil), "union"),
-		has((g.val(a, "objImpl") != "none") == (len(ref.Types["Obj"].Interfaces) > 0), "objImpl"),
+		has((g.val(a, "objImpl") != "none") == (len(ref.Types[objT].Interfaces) > 0), "objImpl"),
 		has((g.val(a, "ifaceImpl") != "none") == (len(ref.Types["I1"].Interfaces) > 0), "ifaceImpl"),
-		has(len(ref.Directives["dir"].Locations) == map[string]int{"fielddef": 1, "mixed": 4, "all": 19}[g.val(a, "dirLocs")], "dirLocs"),
+		has(len(ref.Directives[dirN].Locations) == map[string]int{"fielddef": 1, "mixed": 4, "all": 19}[g.val(a, "dirLocs")], "dirLocs"),
 	}
 	for _, c := range checks {
 		if c != "" {
 			return c
+		}
+	}
+	// a case twin must really be there, next to the element it differs from only in case
+	hasArg := func(l []MInputValue, n string) bool { return argOf(l, n) != nil }
+	for _, k := range namedKinds {
+		if _, twin := g.nm(a, k); !twin {
+			continue
+		}
+		tw := caseTwinName(k)
+		ok := false
+		switch k {
+		case "objType":
+			ok = ref.Types[tw] != nil
+		case "objField":
+			ok = fieldOf(objT, tw) != nil
+		case "ifaceField":
+			ok = fieldOf("I1", tw) != nil
+		case "objArg":
+			ok = hasArg(fieldOf(objT, fN).Args, tw)
+		case "ifaceArg":
+			ok = hasArg(fieldOf("I1", gN).Args, tw)
+		case "inputField":
+			ok = hasArg(ref.Types["In"].InputFields, tw)
+		case "enumValue":
+			for _, ev := range ref.Types["Color"].EnumValues {
+				ok = ok || ev.Name == tw
+			}
+		case "directive":
+			ok = ref.Directives[tw] != nil
+		case "dirArg":
+			ok = hasArg(ref.Directives[dirN].Args, tw)
+		}
+		if !ok {
+			return "case twin of " + k + " missing"
 		}
 	}
 	return ""
@@ -507,7 +567,31 @@ func verifyModel(g *Grid, a Assignment, ref *MSchema) string {
 
 func runGrid(g *Grid, k, workers int, layout string, col *collector, o *Output) {
 	var cases []Assignment
-	g.Enumerate(k, func(a Assignment) bool { cases = append(cases, a); return true })
+	// an assignment that renames an element (a ".name" slot) has at most 2 non-default slots:
+	// the name dimension is crossed pairwise with everything, the triples are over the rest
+	g.Enumerate(k, func(a Assignment) bool {
+		for i, v := range a {
+			if !strings.HasSuffix(g.Slots[i].Name, ".name") {
+				continue
+			}
+			if len(a) > 2 {
+				return true
+			}
+			if len(a) == 2 && !namePairsFull && !namePairShapesShort[g.Slots[i].Values[v]] {
+				return true
+			}
+		}
+		cases = append(cases, a)
+		return true
+	})
+	o.Bounds["grid_max_nondefault_slots_when_an_element_is_renamed"] = 2
+	o.Bounds["grid_name_shapes"] = nameValues
+	if namePairsFull {
+		o.Bounds["grid_name_shapes_in_pairs"] = nameValues[1:]
+	} else {
+		o.Bounds["grid_name_shapes_in_pairs"] = []string{"leadUnderscore", "caseTwin", "goKeyword"}
+	}
+	o.Bounds["grid_named_element_kinds"] = namedKinds
 	o.GridPlanned = len(cases)
 	o.Bounds["grid_max_nondefault_slots"] = k
 	o.Bounds["grid_slots"] = len(g.Slots)
@@ -867,6 +951,20 @@ func doReplay(g *Grid, file, layout string, fed bool) int {
 	switch rf.Replay.Mode {
 	case "history":
 		return replayHistory(fed, rf.Replay.Config, rf.Replay.Requests)
+	case "fedrebuild":
+		findings, evals, _, broken := fedRebuild(true)
+		if broken != "" {
+			fmt.Println("BROKEN:", broken)
+			return 2
+		}
+		fmt.Printf("%d queries evaluated, %d disagreements\n", evals, len(findings))
+		for _, f := range findings {
+			fmt.Printf("  [%s] %s\n", f.sig, f.what)
+		}
+		if len(findings) > 0 {
+			return 1
+		}
+		return 0
 	case "grid":
 		a, err := g.FromNamed(rf.Replay.Assignment)
 		if err != nil {
